@@ -124,6 +124,78 @@ Proof.
   destruct (c_mode c); simpl; auto; discriminate.
 Qed.
 
+(* ---- with an expiry mode configured, the file just moved is in the directory and in the registry ---- *)
+Lemma remove_keys_cons : forall a ks dm, remove_keys (a :: ks) dm = remove_keys ks (remove1 a dm).
+Proof. reflexivity. Qed.
+
+Lemma size_loop_is_remove : forall thr ks dm, exists ks', size_loop thr ks dm = remove_keys ks' dm.
+Proof.
+  induction ks; intros dm.
+  - exists []. reflexivity.
+  - cbn [size_loop]. destruct (msize (snd (remove1 a dm)) <=? thr).
+    + exists [a]. reflexivity.
+    + destruct (IHks (remove1 a dm)) as [ks' H]. exists (a :: ks'). rewrite remove_keys_cons. exact H.
+Qed.
+
+Lemma age_loop_is_remove : forall f thr now l dm, exists ks', age_loop f thr now l dm = remove_keys ks' dm.
+Proof.
+  induction l; intros dm.
+  - exists []. reflexivity.
+  - cbn [age_loop]. destruct (thr <? age_of f now (e_ctime a)).
+    + destruct (IHl (remove1 (e_key a) dm)) as [ks' H]. exists (e_key a :: ks'). rewrite remove_keys_cons. exact H.
+    + exists []. reflexivity.
+Qed.
+
+Definition expiring (md : mode) : Prop := md = MFiles \/ md = MDatasets \/ md = MSize \/ md = MAge.
+
+Lemma expire_is_remove : forall f c now d m, expiring (c_mode c) ->
+  exists ks, expire f c now (d, m) = remove_keys ks (d, scan d m).
+Proof.
+  intros f c now d m H. unfold expire. cbn [fst snd].
+  destruct H as [H|[H|[H|H]]]; rewrite H.
+  - eexists. reflexivity.
+  - eexists. reflexivity.
+  - destruct (c_thr c <? msize (scan d m)); [apply size_loop_is_remove | exists []; reflexivity].
+  - apply age_loop_is_remove.
+Qed.
+
+(* after an expiry every registry entry has its file *)
+Lemma expire_entries_on_disk : forall f c now d m k, expiring (c_mode c) ->
+  In k (keys (entries (snd (expire f c now (d, m))))) -> In k (keys (fst (expire f c now (d, m)))).
+Proof.
+  intros f c now d m k H. destruct (expire_is_remove f c now d m H) as [ks E]. rewrite E.
+  destruct (remove_keys_spec ks (d, scan d m)) as [H1 H2]. rewrite H1, H2. cbn [fst snd]. intros Hi.
+  apply (sync_filter (notin ks) d (entries (scan d m))); auto.
+  - intros k0. apply scan_keys.
+  - intros. now apply notin_key.
+Qed.
+
+Lemma moved_file_present_p : forall f c now k size d m, expiring (c_mode c) ->
+  In k (keys (fst (after_move f c now k size (d, m)))) /\ In k (keys (entries (snd (after_move f c now k size (d, m))))).
+Proof.
+  intros f c now k size d m H. rewrite after_move_unfold by (destruct H as [H|[H|[H|H]]]; rewrite H; discriminate). cbv zeta.
+  destruct (has_key k (entries (snd (expire f c now (d, m))))) eqn:E.
+  - apply has_key_In in E. split; auto. now apply expire_entries_on_disk.
+  - cbn [fst snd]. split.
+    + unfold disk_put, keys. rewrite map_app. apply in_or_app. right. simpl. auto.
+    + unfold reg_add, keys. cbn [entries]. rewrite map_app. apply in_or_app. right. simpl. auto.
+Qed.
+
+(* ... and, more generally, after move_to_cache with a mode configured every registry entry has its file *)
+Lemma move_entries_on_disk_p : forall f c now k size d m x, expiring (c_mode c) ->
+  In x (keys (entries (snd (after_move f c now k size (d, m))))) -> In x (keys (fst (after_move f c now k size (d, m)))).
+Proof.
+  intros f c now k size d m x H. rewrite after_move_unfold by (destruct H as [H|[H|[H|H]]]; rewrite H; discriminate). cbv zeta.
+  destruct (has_key k (entries (snd (expire f c now (d, m))))) eqn:E.
+  - now apply expire_entries_on_disk.
+  - cbn [fst snd]. unfold reg_add, disk_put, keys. cbn [entries]. rewrite !map_app. intros Hi. apply in_app_or in Hi.
+    apply in_or_app. destruct Hi as [Hi|Hi]; [|right; exact Hi].
+    destruct (N.eq_dec x k); [right; simpl; auto|]. left.
+    assert (D := expire_entries_on_disk f c now d m x H Hi). unfold keys in D. apply in_map_iff in D. destruct D as [e [He Hd]].
+    apply in_map_iff. exists e. split; auto. unfold drop_key. apply filter_In. split; auto. simpl.
+    apply negb_true_iff. apply N.eqb_neq. congruence.
+Qed.
+
 (* ---- registry: a client sees its own write through a coherent cache ---- *)
 Open Scope N_scope.
 Lemma own_write_visible_p : forall fx uc t cs id ty run, wf_tables t -> Coherent t cs -> lookup run (chains t) = None ->
